@@ -299,7 +299,8 @@ fn aio_cfg(preset: u64) -> FiberAioConfig {
     }
 }
 const AIO_SIZES: [usize; 12] = [0, 1, 4095, 4096, 65535, 65536, 65537, 131072, 262143, 262144, 262145, 300000];
-/// file j has AIO_SIZES[(seed + j) % 12] bytes, byte i of it is (i * 31 + j * 7 + seed) mod 251
+/// file j has AIO_SIZES[(seed + j) % 12] bytes (with the 1-byte buffers of preset 2, where every byte is a round trip to the blocking
+/// pool: one of the first four sizes), byte i of it is (i * 31 + j * 7 + seed) mod 251
 fn aiofiles_case(cx: &mut Ctx, rt: usize, preset: u64, nfiles: usize, limit: usize, seed: u64) {
     let cell = "FiberIoUtils::process_files_parallel (FiberAio whole-file helpers)";
     let case = json!({"cell": "aiofiles", "kind": 28, "rt": rt, "preset": preset, "n": nfiles, "limit": limit, "seed": seed, "ops": []});
@@ -307,7 +308,7 @@ fn aiofiles_case(cx: &mut Ctx, rt: usize, preset: u64, nfiles: usize, limit: usi
     s_only(cx, cell);
     let dir = cx.objs.tmp_dir("aio");
     let d2 = dir.clone();
-    let content = move |j: usize| -> Vec<u8> { let n = AIO_SIZES[(seed as usize + j) % 12]; (0..n).map(|i| ((i * 31 + j * 7 + seed as usize) % 251) as u8).collect() };
+    let content = move |j: usize| -> Vec<u8> { let n = AIO_SIZES[(seed as usize + j) % if preset == 2 { 4 } else { 12 }]; (0..n).map(|i| ((i * 31 + j * 7 + seed as usize) % 251) as u8).collect() };
     let r = guarded(|| with_rt(rt, async move {
         tokio::time::timeout(Duration::from_secs(30), async move {
             let aio = match if preset == 0 && seed % 2 == 0 { FiberAio::new() } else { FiberAio::with_config(aio_cfg(preset)) } { Ok(a) => Arc::new(a), Err(e) => return Some(format!("FiberAio could not be built: {:?}", e)) };
